@@ -757,7 +757,8 @@ namespace nmtools::index
             // note that we also explicit using size_t here
             // can't infer type (or using size_type ) :|
             // size_type si = at(shape,i);
-            [[maybe_unused]] size_t si = at(shape,s_i);
+            // NOTE: an ellipsis that expands to no axis may sit past the last axis (e.g. a[:, ...] on a 1-d array)
+            [[maybe_unused]] size_t si = (s_i < (size_t)len(shape)) ? (size_t)at(shape,s_i) : size_t{0};
             using slice_t = meta::remove_cvref_t<decltype(slice)>;
 
             // helper lambda to decompose start stop and step
@@ -914,7 +915,8 @@ namespace nmtools::index
         meta::template_for<N_SLICES>([&](auto i){
             auto slice = at(slices_pack, i);
             // si may not be used in all constexpr branch
-            [[maybe_unused]] size_t si  = at(shape,s_i);
+            // NOTE: an ellipsis that expands to no axis may sit past the last axis (e.g. a[:, ...] on a 1-d array)
+            [[maybe_unused]] size_t si  = (s_i < (size_t)len(shape)) ? (size_t)at(shape,s_i) : size_t{0};
             using slice_t = meta::remove_cvref_t<decltype(slice)>;
             if constexpr (meta::is_index_v<slice_t>) {
                 if constexpr (meta::is_signed_v<slice_t>) {
